@@ -8,6 +8,12 @@ CLAIMS = {
  "C06": dict(level="proof", design="3/C06",
    text="Proof, for all libraries and all query paths, that the model of find_global obeys the documented rules (explicit entry wins; explicit segment beats `*`, `*` is the fallback; struct segments continue in the struct; any absorbs; on wildcard/struct/any-free libraries the result is exactly: key -> its field, proper prefix of keys -> implicit read-only table, else absent), is total when every named struct exists (and reaches the panic otherwise), does not depend on key order, that a known root always resolves, and that writes follow the writability table with every assignment target judged independently. Tied to /repo by evaluating the real find_global/global_has_fields and the incorrect_standard_library_use diagnostics of generated programs against model and rules inside coqc.",
    note="Trusted: the trie built by extract_into_tree is modelled extensionally (construction covered by correspondence only); name-path extraction and scope resolution are oracles here (real ScopeManager); W1 repaired by a fix: commit."),
+ "C08": dict(level="proof", design="3/C08",
+   text="PARTIAL proof + evaluated specification. Proved for every input (no well-formedness needed): with no accepted filter the pass is the identity; a diagnostic whose lint no accepted filter names is emitted unchanged and in place (frame property for other lints). The full statement 'machine = innermost covering filter for the lint, else the global one, else unchanged' (C08_filter_correct_statement) is written in Coq against a verbatim model of filter_diagnostics and an independent declarative specification and is EVALUATED by coqc on every case (real traversal + real lints end to end against the neutralised twin; the real filter_diagnostics driven with diagnostics on every range endpoint +-1), but its general proof is still open; the proof plan is in DESIGN.md.",
+   note="Trusted: full_moon trivia attachment/traversal order (taken from the real traversal through a cfg(selene_verif) hook, wf_filters evaluated per dump); stable sort; the open proof obligation named above."),
+ "C09": dict(level="proof", design="3/C09",
+   text="Proof over the verbatim model of filter_diagnostics / parse_comment / FilterVisitor that (for every input) an unknown-lint filter, a global filter after code and a same-piece same-lint filter each yield an invalid_lint_filter failure at the offending comment, that a rejected global filter leaves the instruction list, the accepted globals and the conflict state exactly as without it (inert), and that a malformed comment produces no entry. The model is tied to /repo by the same correspondence as C08 (parse_comment on generated texts incl. Unicode spaces; visit events of the real traversal; failures compared exactly, with ranges).",
+   note="Trusted: as C08. Comments in the leading trivia of tokens that start no visited node (before else/end/until/`}`) are claimed by no node: class F2, listed open."),
  "C15": dict(level="proof", design="3/C15",
    text="Machine-checked proof (Coq 8.16) that the model of StandardLibrary::extend, of base-chain resolution and of the CLI `+` fold satisfies 'derived overrides base, removed removes, derived lua_versions win' for all libraries and chains of any length; the model is tied to /repo by a correspondence run: the real extend()/from_name() and the model are evaluated on the same generated and shipped libraries inside coqc, and the specification is evaluated on the implementation's own output.",
    note="Trusted: Coq kernel, harness printers, wf_lib (no duplicate keys) checked per dumped library; YAML text layer and on-disk base lookup not modelled."),
